@@ -160,8 +160,10 @@ EXPORT errno_t _wctomb_s_chk(int *restrict retvalp, char *restrict dest,
         }
         rc = EOK;
     } else {
-        /* errno is usually EILSEQ */
-        rc = (len > 0) ? ESNOSPC : errno;
+        /* errno is usually EILSEQ; len == 0 is the answer to the
+         * dest == NULL query (no state-dependent encoding), not a failure:
+         * libc did not set errno then */
+        rc = (len > 0) ? ESNOSPC : (len < 0) ? errno : EOK;
         if (dest) {
             /* the entire src must have been copied, if not reset dest
              * to null the string. (only with SAFECLIB_STR_NULL_SLACK)
